@@ -79,8 +79,14 @@ def extract_json(body, schema):
         jsonschema.validate(data, schema,
                             format_checker=jsonschema.FormatChecker())
     except jsonschema.ValidationError as exc:
+        try:
+            detail = str(exc)
+        except RecursionError:
+            # The full message pretty-prints the offending document, which
+            # fails for one nested a few hundred levels deep.
+            detail = exc.message
         raise webob.exc.HTTPBadRequest(
-            'JSON does not validate: %(error)s' % {'error': exc},
+            'JSON does not validate: %(error)s' % {'error': detail},
             json_formatter=json_error_formatter)
     return data
 
